@@ -25,7 +25,7 @@ META = {
                   'answer:and:False': 1000, 'answer:defense:False': 500, 'surfaces-compared': 5000, 'incremental-steps-compared': 2000,
                   'class:and-mixed-necessary-parents': 500, 'class:batch-shares-child': 100, 'defense-surfaces-compared': 4000,
                   'class:suppressed-defense': 100, 'snapshots-compared': 10000, 'class:other-attacker-compromised-parent': 200, 'class:labels-changed-between-queries': 100,
-                  'class:and-fan-in-over-12:True': 25, 'class:and-fan-in-over-12:False': 200, 'class:defense-status-next-to-0-or-1': 80},
+                  'class:queries-continue-on-a-deep-copy': 60, 'class:queries-continue-on-a-saved-and-loaded-graph': 20, 'class:and-fan-in-over-12:True': 25, 'class:and-fan-in-over-12:False': 200, 'class:defense-status-next-to-0-or-1': 80},
         'thorough': {'traversable-answers': 5000000, 'surfaces-compared': 500000, 'incremental-steps-compared': 200000},
     },
 }
@@ -124,6 +124,24 @@ def _check(case, res, count=True):
             return ('query.enabled-defenses:wrong-set', 'enabled defenses %s expected %s' % (got_ed, want_ed))
         rounds = max(len(b) for b in case['attackers']) if case['attackers'] else 0
         for r in range(rounds + 1):
+            if r > 0 and case.get('copy_at') == r:
+                # the simulation continues on a deep copy of the graph (attackers and what they reached included)
+                if case.get('copy_how') == 'reload':
+                    from maltoolbox.attackgraph import AttackGraph
+                    g2 = AttackGraph._from_dict(copy.deepcopy(g._to_dict()), model=None)
+                    cnt('class:queries-continue-on-a-saved-and-loaded-graph')
+                else:
+                    g2 = copy.deepcopy(g)
+                if len(g2.nodes) != n or len(g2.attackers) != len(atts):
+                    return ('query:deepcopy-lost-objects', 'the deep copy has %d nodes / %d attackers' % (len(g2.nodes), len(g2.attackers)))
+                new_objs = [g2.get_node_by_id(o.id) for o in objs]
+                new_atts = [g2.get_attacker_by_id(a.id) for a in atts]
+                if any(x is None for x in new_objs + new_atts):
+                    return ('query:deepcopy-lost-objects', 'a node / attacker id of the original is unknown to the copy')
+                surfaces = [None if s0 is None else [new_objs[idx[id(x)]] for x in s0] for s0 in surfaces]
+                g, objs, atts = g2, new_objs, new_atts
+                idx = {id(o): i for i, o in enumerate(objs)}
+                cnt('class:queries-continue-on-a-deep-copy')
             if r > 0 and case.get('relabel'):
                 # the analysis is re-run between two queries (a defense was changed): labels flip in place.
                 # A surface computed before is no longer comparable, the queries must follow the new labels.
@@ -316,7 +334,8 @@ def run(rng, res, tier, shard, nshards):
                 atts[0] = [b for b in (nec[:cut[0]], nec[cut[0]:cut[-1]], nec[cut[-1]:]) if b]
                 if len(atts) > 1:
                     atts[1] = [nec[1:]] if len(nec) > 1 else [[]]
-        case = {'desc': desc, 'attackers': atts, 'relabel': rng.randrange(1, 10 ** 6) if rng.random() < 0.3 else None}
+        case = {'desc': desc, 'attackers': atts, 'relabel': rng.randrange(1, 10 ** 6) if rng.random() < 0.3 else None,
+                'copy_at': rng.randint(1, 4) if rng.random() < 0.2 else None, 'copy_how': rng.choice(['deepcopy', 'deepcopy', 'reload'])}
         f = check(case, res)
         res.count('random-cases')
         res.case(digest(case) if nontrivial(case) else None)
